@@ -141,6 +141,15 @@ def materialise(scn, root):
                 with open(os.path.join(top, '.index'), 'w') as f:
                     for k, v in scn['index']:
                         f.write('%s %s\n' % (k, v))
+            if scn.get('linkdir'):
+                # one first-level sub-directory is kept elsewhere and reached through a symbolic link (same paths as seen
+                # from the searched directory)
+                subs = sorted(x for x in os.listdir(top) if os.path.isdir(os.path.join(top, x)) and not os.path.islink(os.path.join(top, x)))
+                if subs:
+                    pick = subs[scn['linkdir'] % len(subs)]
+                    os.makedirs(os.path.join(root, 'kept-elsewhere'))
+                    os.rename(os.path.join(top, pick), os.path.join(root, 'kept-elsewhere', pick))
+                    os.symlink(os.path.join(root, 'kept-elsewhere', pick), os.path.join(top, pick))
             return top
         top = os.path.join(root, 'arch' + scn.get('zipext', '.zip'))
         with open(top, 'wb') as f:
@@ -494,6 +503,8 @@ def generate(rng, tier):
         scn['more_requests'] = others
     if rng.random() < 0.2:
         scn['decoy'] = rng.choice(['zip-before', 'dir-before', 'zip-after', 'dir-after'])
+    if kind == 'dir' and rng.random() < 0.15:
+        scn['linkdir'] = rng.randrange(1, 7)
     if kind == 'dir':
         scn['url_style'] = rng.choice(['bare', 'bare', 'file', 'file', 'file-host'])
         if rng.random() < 0.2:
